@@ -1,7 +1,457 @@
-import Buidl.Model.Address
+/-
+  C09 — Address and key text encodings invert exactly and reject what the specs reject.
+  Property theorems only (helper lemmas: Buidl.Proofs.Base58, Base58Check, Polymod, Regroup,
+  Bech32, Bech32Addr, Address, AddressDispatch).  Models: Buidl.Model.Base58 / Bech32 / Address
+  (constants from Buidl.Gen.*, re-extracted from /repo on every run).  `hash256` is an
+  arbitrary function; where its output length matters the hypothesis says so (the real one
+  returns 32 bytes).
+-/
+import Buidl.Proofs.AddressDispatch
 namespace Buidl.Props.C09
-open Buidl Buidl.Base58
+open Buidl Buidl.Base58 Buidl.Bech32 Buidl.Address
 
-theorem stub_alphabet_length : alphabet.length = 58 := by decide
+/-! ## Base58 -/
+
+/-- the encoder is defined exactly on non-empty byte strings (`int("", 16)` raises) -/
+theorem base58_encode_domain (b : Bytes) : (encodeBase58 b).isSome ↔ b ≠ [] := by
+  constructor
+  · intro h e; subst e; simp [encodeBase58] at h
+  · intro h
+    cases b with
+    | nil => exact absurd rfl h
+    | cons v t =>
+      unfold encodeBase58
+      rw [if_neg (by simp)]
+      simp only [Gen.b58EncBase]
+      rw [digitsBE_eq 58 (by omega) _ _ _ (Nat.le_refl _)]
+      have hlt : ∀ d ∈ (Nat.digits 58 (beToNat (v :: t))).reverse ++ [], d < 58 := by
+        intro d hd
+        simp only [List.append_nil, List.mem_reverse] at hd
+        exact Nat.digits_lt_base (by omega) hd
+      rw [lookupAll_eq _ hlt]
+      rfl
+
+/-- decoding inverts encoding for every byte string, leading zero bytes included
+    (`decodeCombined` is `raw_decode_base58` before its checksum test) -/
+theorem base58_decode_encode (b : Bytes) (s : Str) (h : encodeBase58 b = some s) : decodeCombined s = some b :=
+  decodeCombined_encodeBase58 b s h
+
+/-- and encoding inverts decoding: a string is the text of exactly one byte string -/
+theorem base58_encode_decode (s : Str) (c : Bytes) (h : decodeCombined s = some c) (hc : c ≠ []) :
+    encodeBase58 c = some s :=
+  encodeBase58_decodeCombined s c h hc
+
+/-- Base58Check round trip -/
+theorem base58check_roundtrip (hash256 : Bytes → Bytes) (hh : ∀ b, 4 ≤ (hash256 b).length) (p : Bytes) (s : Str)
+    (h : encodeBase58Checksum hash256 p = some s) : rawDecodeBase58 hash256 s = some p :=
+  rawDecodeBase58_encodeBase58Checksum hash256 hh p s h
+
+/-- a Base58Check string is accepted, with payload `p`, exactly when it is the Base58 text of
+    `p ‖ hash256(p)[:4]` -/
+theorem base58check_accept_iff (hash256 : Bytes → Bytes) (hh : ∀ b, 4 ≤ (hash256 b).length) (s : Str) (p : Bytes) :
+    rawDecodeBase58 hash256 s = some p ↔ encodeBase58Checksum hash256 p = some s :=
+  rawDecodeBase58_eq_some_iff hash256 hh s p
+
+/-- acceptance in terms of the decoded bytes: the last four bytes must be the first four bytes
+    of hash256 of the rest; anything else (and any foreign character) is refused -/
+theorem base58check_checksum (hash256 : Bytes → Bytes) (s : Str) :
+    rawDecodeBase58 hash256 s =
+      match decodeCombined s with
+      | none => none
+      | some c => if (hash256 (pyButLast 4 c)).take 4 = pyLast 4 c then some (pyButLast 4 c) else none := by
+  unfold rawDecodeBase58
+  cases decodeCombined s with
+  | none => rfl
+  | some c =>
+    simp only [Gen.b58DecChecksumTail, Gen.b58DecHashedCut, Gen.b58DecHashWidth, Gen.b58DecReturnCut]
+    by_cases h : (hash256 (pyButLast 4 c)).take 4 = pyLast 4 c <;> simp [h]
+
+example : encodeBase58 [0, 0, 1, 2, 3] = some "11Ldp".toList ∧ decodeCombined "11Ldp".toList = some [0, 0, 1, 2, 3] := by
+  decide
+
+/-! ## Bech32 / Bech32m -/
+
+/-- the bech32 constant is 1, the bech32m constant 0x2bc830a3 -/
+theorem bech32_constants : constOf 0 = 1 ∧ ∀ v, v ≠ 0 → constOf v = 0x2bc830a3 := by
+  refine ⟨rfl, fun v hv => ?_⟩
+  simp [constOf, hv, Gen.b32mVerifyConst]
+
+/-- polymod is linear over XOR: for words of equal length the checksum of the XOR, started
+    from the XOR of the start states, is the XOR of the checksums -/
+theorem polymod_affine (vs ws : List Nat) (h : vs.length = ws.length) (a b : Nat) :
+    polymodFrom (a ^^^ b) (List.zipWith (· ^^^ ·) vs ws) = polymodFrom a vs ^^^ polymodFrom b ws :=
+  polymodFrom_xor vs ws h a b
+
+/-- the per-step map of the checksum register is injective on the top five bits:
+    the low five bits of the generator mix determine them -/
+theorem polymod_step_injective : ∀ b < 32, ∀ b' < 32,
+    (term b 0 ^^^ term b 1 ^^^ term b 2 ^^^ term b 3 ^^^ term b 4) % 32 =
+    (term b' 0 ^^^ term b' 1 ^^^ term b' 2 ^^^ term b' 3 ^^^ term b' 4) % 32 → b = b' :=
+  mix_low5_injective
+
+/-- ANY single substituted symbol changes the checksum, whatever the length, prefix and suffix -/
+theorem polymod_single_substitution (pre post : List Nat) (x y : Nat) (hx : x < 32) (hy : y < 32) (hxy : x ≠ y) :
+    polymod (pre ++ x :: post) ≠ polymod (pre ++ y :: post) :=
+  polymodFrom_single _ pre post x y (by omega) (by omega) hxy
+
+/-- any two substituted symbols at distance ≤ 89 change the checksum -/
+theorem polymod_double_substitution (pre mid post : List Nat) (x y x' y' : Nat)
+    (hx : x < 32) (hy : y < 32) (hx' : x' < 32) (hy' : y' < 32) (hxy : x ≠ y) (hxy' : x' ≠ y') (hmid : mid.length < 89) :
+    polymod (pre ++ x :: mid ++ x' :: post) ≠ polymod (pre ++ y :: mid ++ y' :: post) :=
+  polymodFrom_double _ pre mid post x y x' y' hx hy hx' hy' hxy hxy' hmid
+
+/-- `group_32`: ⌈8L/5⌉ five-bit groups, value = value of the bytes shifted by the padding -/
+theorem group32_value (s : Bytes) (hs : s ≠ []) :
+    ∃ pad, pad < 5 ∧ (group32 s).length * 5 = 8 * s.length + pad ∧
+      valBE 32 (group32 s) = beToNat s * 2 ^ pad ∧ ∀ d ∈ group32 s, d < 32 :=
+  group32_spec s hs
+
+/-- Round trip: for every supported network, witness version 0..16 and program of 2..40 bytes,
+    `encode_bech32_checksum` succeeds and `decode_bech32` returns the network (signet shares
+    the testnet prefix), the version and the program. -/
+theorem bech32_roundtrip (net : Str) (hnet : KnownNet net) (v : Nat) (hv : v ≤ 16) (prog : Bytes)
+    (hlen : 2 ≤ prog.length ∧ prog.length ≤ 40) :
+    ∃ s, encodeBech32Checksum (vbyte v :: UInt8.ofNat prog.length :: prog) net = some s ∧
+      decodeBech32 s = some (netBack net, v, prog) := by
+  obtain ⟨hx, hhx⟩ := hrpExpand_known net
+  have hne : prog ≠ [] := by intro e; rw [e] at hlen; simp at hlen
+  exact ⟨_, encode_segwit hnet hhx v hv prog hne (by omega), decode_segwit hnet hhx v (by omega) prog hlen⟩
+
+/-- Constant selection on the encoding side: the address written for version `v` is
+    `hrp ‖ "1" ‖ data` where the checksum of `hrp_expand(hrp) ‖ data` is the bech32 constant 1
+    for version 0 and the bech32m constant for every other version. -/
+theorem bech32_encode_constant (net : Str) (hnet : KnownNet net) (v : Nat) (hv : v ≤ 16) (prog : Bytes)
+    (hne : prog ≠ []) (hlen : prog.length < 256) :
+    ∃ hx data, hrpExpand (hrpOf net) = some hx ∧
+      encodeBech32Checksum (vbyte v :: UInt8.ofNat prog.length :: prog) net = some (hrpOf net ++ '1' :: data.map b32char) ∧
+      data.head? = some v ∧ polymod (hx ++ data) = constOf v := by
+  obtain ⟨hx, hhx⟩ := hrpExpand_known net
+  refine ⟨hx, addrData hx v prog, hhx, encode_segwit hnet hhx v hv prog hne hlen, rfl, ?_⟩
+  obtain ⟨_, _, _, _, hg⟩ := group32_spec prog hne
+  have hxlt : ∀ w ∈ hx ++ v :: group32 prog, w < 2 ^ 30 := by
+    intro w hw
+    rcases List.mem_append.mp hw with hw | hw
+    · have := hrpExpand_lt hhx w hw; omega
+    · rcases List.mem_cons.mp hw with rfl | hw
+      · omega
+      · have := hg w hw; omega
+  have := polymod_create (hx ++ v :: group32 prog) hxlt (constOf v) (constOf_lt v)
+  rw [← this]
+  unfold addrData
+  congr 1
+  simp
+
+/-- Constant selection on the decoding side: whatever `decode_bech32` accepts with version `v`
+    has, over `hrp_expand(hrp) ‖ data`, the checksum constant of `v` (1 for version 0,
+    0x2bc830a3 otherwise), `v` being the first data symbol. -/
+theorem bech32_decode_constant (s : Str) (r : Str × Nat × Bytes) (h : decodeBech32 s = some r) :
+    ∃ hrp raw hx res, splitHrp s = some (hrp, raw) ∧ hrpExpand hrp = some hx ∧
+      raw.mapM (fun c => indexOf? c Bech32.alphabet) = some res ∧ res.head? = some r.2.1 ∧
+      polymod (hx ++ res) = constOf r.2.1 := by
+  unfold decodeBech32 at h
+  cases hs : splitHrp s with
+  | none => rw [hs] at h; cases h
+  | some p =>
+    obtain ⟨hrp, raw⟩ := p
+    rw [hs] at h
+    obtain ⟨hx, res, dtail, hhx, hm, hres, hpm⟩ := decodeBody_some h
+    exact ⟨hrp, raw, hx, res, rfl, hhx, hm, by rw [hres]; rfl, hpm⟩
+
+/-- One substituted character in the data part of a valid segwit address: refused, at every
+    length.  If the substituted character is the first data character (the witness version) and
+    the substitution switches between `q` (version 0) and another character, the checksum
+    constant switches too; that case is covered for at most 89 characters after it. -/
+theorem bech32_single_substitution (net : Str) (pre post : Str) (x y : Char) (hxy : x ≠ y) (r : Str × Nat × Bytes)
+    (h : decodeBech32 (hrpOf net ++ '1' :: (pre ++ x :: post)) = some r)
+    (hcase : pre ≠ [] ∨ (x = 'q' ↔ y = 'q') ∨ post.length ≤ 89) :
+    decodeBech32 (hrpOf net ++ '1' :: (pre ++ y :: post)) = none := by
+  have key : ∀ hrp : Str,
+      (∀ chars, splitHrp (hrp ++ '1' :: chars) = some (hrp, chars) ∨ splitHrp (hrp ++ '1' :: chars) = none) →
+      decodeBech32 (hrp ++ '1' :: (pre ++ x :: post)) = some r →
+      decodeBech32 (hrp ++ '1' :: (pre ++ y :: post)) = none := by
+    intro hrp hsplit h0
+    unfold decodeBech32 at h0 ⊢
+    rcases hsplit (pre ++ x :: post) with e | e
+    · rw [e] at h0
+      rcases hsplit (pre ++ y :: post) with e' | e'
+      · rw [e']
+        exact decodeBody_single_subst hrp pre post x y hxy r h0 hcase
+      · rw [e']
+    · rw [e] at h0; cases h0
+  apply key (hrpOf net) _ h
+  intro chars
+  rcases hrpOf_cases net with e | e | e <;> rw [e]
+  · rw [splitHrp_plain _ _ (by decide) (by simp [List.isPrefixOf])]
+    by_cases h1 : '1' ∈ chars <;> simp [h1]
+  · rw [splitHrp_plain _ _ (by decide) (by simp [List.isPrefixOf])]
+    by_cases h1 : '1' ∈ chars <;> simp [h1]
+  · exact Or.inl (splitHrp_regtest '1' chars)
+
+/-- Two substituted characters in the data part of a valid segwit address, at most 88
+    characters between them (an address has at most 90 characters), the checksum constant
+    unchanged (the version character is not one of them, or stays on the same side of `q`):
+    refused. -/
+theorem bech32_double_substitution (net : Str) (pre mid post : Str) (x y x' y' : Char) (hxy : x ≠ y) (hxy' : x' ≠ y')
+    (r : Str × Nat × Bytes)
+    (h : decodeBech32 (hrpOf net ++ '1' :: (pre ++ x :: mid ++ x' :: post)) = some r)
+    (hmid : mid.length < 89) (hcase : pre ≠ [] ∨ (x = 'q' ↔ y = 'q')) :
+    decodeBech32 (hrpOf net ++ '1' :: (pre ++ y :: mid ++ y' :: post)) = none := by
+  have key : ∀ hrp : Str,
+      (∀ chars, splitHrp (hrp ++ '1' :: chars) = some (hrp, chars) ∨ splitHrp (hrp ++ '1' :: chars) = none) →
+      decodeBech32 (hrp ++ '1' :: (pre ++ x :: mid ++ x' :: post)) = some r →
+      decodeBech32 (hrp ++ '1' :: (pre ++ y :: mid ++ y' :: post)) = none := by
+    intro hrp hsplit h0
+    unfold decodeBech32 at h0 ⊢
+    rcases hsplit (pre ++ x :: mid ++ x' :: post) with e | e
+    · rw [e] at h0
+      rcases hsplit (pre ++ y :: mid ++ y' :: post) with e' | e'
+      · rw [e']
+        exact decodeBody_double_subst hrp pre mid post x y x' y' hxy hxy' r h0 hmid hcase
+      · rw [e']
+    · rw [e] at h0; cases h0
+  apply key (hrpOf net) _ h
+  intro chars
+  rcases hrpOf_cases net with e | e | e <;> rw [e]
+  · rw [splitHrp_plain _ _ (by decide) (by simp [List.isPrefixOf])]
+    by_cases h1 : '1' ∈ chars <;> simp [h1]
+  · rw [splitHrp_plain _ _ (by decide) (by simp [List.isPrefixOf])]
+    by_cases h1 : '1' ∈ chars <;> simp [h1]
+  · exact Or.inl (splitHrp_regtest '1' chars)
+
+-- UNPROVED (ext): two substitutions one of which changes the version character between `q` and
+-- another character (the checksum constant switches between 1 and 0x2bc830a3).  Needs the
+-- 2791-entry syndrome table of Appendix A; correspondence-only (sampled double substitutions).
+
+example : KnownNet mainnet ∧ KnownNet regtest ∧ hrpOf signet = ['t', 'b'] ∧ netBack signet = testnet :=
+  ⟨Or.inl rfl, Or.inr (Or.inr (Or.inr rfl)), by decide, by decide⟩
+
+/-! ## WIF -/
+
+/-- WIF round trip: for every secret in 1..N-1, compressed or not, on any network name, the
+    text parses back to the secret, the compression flag and the network class
+    ("mainnet" for mainnet, "testnet" for everything else — the format has two version bytes) -/
+theorem wif_roundtrip (hash256 : Bytes → Bytes) (hh : ∀ b, (hash256 b).length = 32) (secret : Nat)
+    (hlo : 1 ≤ secret) (hhi : secret ≤ Gen.privMaxSecret) (net : Str) (compressed : Bool) :
+    ∃ s, wif hash256 secret net compressed = some s ∧
+      wifParse hash256 s = some (secret, if net = mainnet then mainnet else testnet, compressed) := by
+  obtain ⟨s, hs⟩ := wif_isSome hash256 secret hlo hhi net compressed
+  refine ⟨s, hs, ?_⟩
+  have := wif_parse_roundtrip hash256 hh secret hlo hhi net compressed s hs
+  rw [this]
+  have e1 : Gen.wifMainnetName.toList = mainnet := by decide
+  have e2 : Gen.wifParseMainName.toList = mainnet := by decide
+  have e3 : Gen.wifParseTestName.toList = testnet := by decide
+  rw [e1, e2, e3]
+
+example : (1 : Nat) ≤ Gen.privMaxSecret := by decide
+
+/-! ## scriptPubKey ↔ address, per template and network -/
+
+/-- P2PKH: `address_to_script_pubkey (address spk net) = spk` for every 20-byte hash and network.
+    The first-character dispatch is justified: version 0x00 always gives '1', version 0x6f
+    always 'm' or 'n' (`base58_first_char`). -/
+theorem address_roundtrip_p2pkh (hash256 : Bytes → Bytes) (hh : ∀ b, (hash256 b).length = 32) (net : Str) (h : Bytes)
+    (hl : h.length = 20) :
+    ∃ s, address hash256 (.p2pkh h) net = some s ∧ addressToScriptPubkey hash256 s = some (.p2pkh h) ∧
+      toAddress segPrefixesRepaired hash256 s = some (.p2pkh h) ∧ toAddress segPrefixesAsIs hash256 s = some (.p2pkh h) := by
+  have hmain : Gen.p2pkhMainnetName.toList = mainnet := by decide
+  by_cases hn : net = mainnet
+  · obtain ⟨s, hs⟩ := encodeBase58Checksum_isSome hash256 0x00 h
+    have hfc := (base58_first_char hash256 hh 0x00 h hl s hs).1 rfl
+    have hdec := decodeBase58_encode hash256 hh 0x00 h s hs
+    refine ⟨s, by simp [address, hmain, hn, Gen.p2pkhVersionMain]; exact hs, ?_, ?_, ?_⟩
+    · rw [a2s_base58 hash256 s '1' hfc, if_pos (by decide), hdec]; rfl
+    · rw [toAddress_base58 _ hash256 s '1' hfc (no_segwit_prefix _ (Or.inr rfl) s '1' hfc (by decide)),
+        if_neg (by decide), if_pos (by decide), hdec]
+      simp [hl, Gen.toAddrP2pkhLen]
+    · rw [toAddress_base58 _ hash256 s '1' hfc (no_segwit_prefix _ (Or.inl rfl) s '1' hfc (by decide)),
+        if_neg (by decide), if_pos (by decide), hdec]
+      simp [hl, Gen.toAddrP2pkhLen]
+  · obtain ⟨s, hs⟩ := encodeBase58Checksum_isSome hash256 0x6f h
+    have hdec := decodeBase58_encode hash256 hh 0x6f h s hs
+    refine ⟨s, by simp [address, hmain, hn, Gen.p2pkhVersionOther]; exact hs, ?_⟩
+    rcases (base58_first_char hash256 hh 0x6f h hl s hs).2.1 rfl with hfc | hfc
+    · refine ⟨?_, ?_, ?_⟩
+      · rw [a2s_base58 hash256 s 'm' hfc, if_pos (by decide), hdec]; rfl
+      · rw [toAddress_base58 _ hash256 s 'm' hfc (no_segwit_prefix _ (Or.inr rfl) s 'm' hfc (by decide)),
+          if_neg (by decide), if_pos (by decide), hdec]
+        simp [hl, Gen.toAddrP2pkhLen]
+      · rw [toAddress_base58 _ hash256 s 'm' hfc (no_segwit_prefix _ (Or.inl rfl) s 'm' hfc (by decide)),
+          if_neg (by decide), if_pos (by decide), hdec]
+        simp [hl, Gen.toAddrP2pkhLen]
+    · refine ⟨?_, ?_, ?_⟩
+      · rw [a2s_base58 hash256 s 'n' hfc, if_pos (by decide), hdec]; rfl
+      · rw [toAddress_base58 _ hash256 s 'n' hfc (no_segwit_prefix _ (Or.inr rfl) s 'n' hfc (by decide)),
+          if_neg (by decide), if_pos (by decide), hdec]
+        simp [hl, Gen.toAddrP2pkhLen]
+      · rw [toAddress_base58 _ hash256 s 'n' hfc (no_segwit_prefix _ (Or.inl rfl) s 'n' hfc (by decide)),
+          if_neg (by decide), if_pos (by decide), hdec]
+        simp [hl, Gen.toAddrP2pkhLen]
+
+/-- P2SH: version 0x05 always gives '3', version 0xc4 always '2' -/
+theorem address_roundtrip_p2sh (hash256 : Bytes → Bytes) (hh : ∀ b, (hash256 b).length = 32) (net : Str) (h : Bytes)
+    (hl : h.length = 20) :
+    ∃ s, address hash256 (.p2sh h) net = some s ∧ addressToScriptPubkey hash256 s = some (.p2sh h) ∧
+      toAddress segPrefixesRepaired hash256 s = some (.p2sh h) ∧ toAddress segPrefixesAsIs hash256 s = some (.p2sh h) := by
+  have hmain : Gen.p2shMainnetName.toList = mainnet := by decide
+  by_cases hn : net = mainnet
+  · obtain ⟨s, hs⟩ := encodeBase58Checksum_isSome hash256 0x05 h
+    have hfc := (base58_first_char hash256 hh 0x05 h hl s hs).2.2.1 rfl
+    have hdec := decodeBase58_encode hash256 hh 0x05 h s hs
+    refine ⟨s, by simp [address, hmain, hn, Gen.p2shVersionMain]; exact hs, ?_, ?_, ?_⟩
+    · rw [a2s_base58 hash256 s '3' hfc, if_neg (by decide), if_pos (by decide), hdec]; rfl
+    · rw [toAddress_base58 _ hash256 s '3' hfc (no_segwit_prefix _ (Or.inr rfl) s '3' hfc (by decide)),
+        if_pos (by decide), hdec]
+      simp [hl, Gen.toAddrP2shLen]
+    · rw [toAddress_base58 _ hash256 s '3' hfc (no_segwit_prefix _ (Or.inl rfl) s '3' hfc (by decide)),
+        if_pos (by decide), hdec]
+      simp [hl, Gen.toAddrP2shLen]
+  · obtain ⟨s, hs⟩ := encodeBase58Checksum_isSome hash256 0xc4 h
+    have hfc := (base58_first_char hash256 hh 0xc4 h hl s hs).2.2.2 rfl
+    have hdec := decodeBase58_encode hash256 hh 0xc4 h s hs
+    refine ⟨s, by simp [address, hmain, hn, Gen.p2shVersionOther]; exact hs, ?_, ?_, ?_⟩
+    · rw [a2s_base58 hash256 s '2' hfc, if_neg (by decide), if_pos (by decide), hdec]; rfl
+    · rw [toAddress_base58 _ hash256 s '2' hfc (no_segwit_prefix _ (Or.inr rfl) s '2' hfc (by decide)),
+        if_pos (by decide), hdec]
+      simp [hl, Gen.toAddrP2shLen]
+    · rw [toAddress_base58 _ hash256 s '2' hfc (no_segwit_prefix _ (Or.inl rfl) s '2' hfc (by decide)),
+        if_pos (by decide), hdec]
+      simp [hl, Gen.toAddrP2shLen]
+
+/-- the first character of the Base58Check text of `version ‖ 20 bytes` for the four address
+    version bytes: 0x00 → '1', 0x6f → 'm' or 'n', 0x05 → '3', 0xc4 → '2' (from the two endpoints
+    of each version byte's range of 25-byte numbers) -/
+theorem base58_first_char_dispatch (hash256 : Bytes → Bytes) (hh : ∀ b, (hash256 b).length = 32) (v : UInt8) (h : Bytes)
+    (hl : h.length = 20) (s : Str) (he : encodeBase58Checksum hash256 (v :: h) = some s) :
+    (v = 0x00 → s.take 1 = ['1']) ∧ (v = 0x6f → s.take 1 = ['m'] ∨ s.take 1 = ['n']) ∧
+    (v = 0x05 → s.take 1 = ['3']) ∧ (v = 0xc4 → s.take 1 = ['2']) :=
+  base58_first_char hash256 hh v h hl s he
+
+/-- the segwit address of a template with witness version `v` (0 or 1) and a program of `L`
+    bytes, through both consumers -/
+theorem segwit_template (hash256 : Bytes → Bytes) (net : Str) (hnet : KnownNet net) (spk : Spk) (v : Nat) (prog : Bytes)
+    (hprog : spk.rawSerialize = some (vbyte v :: UInt8.ofNat prog.length :: prog))
+    (hcase : (v = 0 ∧ prog.length = 20 ∧ spk = .p2wpkh prog) ∨ (v = 0 ∧ prog.length = 32 ∧ spk = .p2wsh prog) ∨
+      (v = 1 ∧ prog.length = 32 ∧ spk = .p2tr prog)) :
+    ∃ s, address hash256 spk net = some s ∧ addressToScriptPubkey hash256 s = some spk ∧
+      toAddress segPrefixesRepaired hash256 s = some spk ∧
+      (net ≠ regtest → toAddress segPrefixesAsIs hash256 s = some spk) ∧
+      (net = regtest → toAddress segPrefixesAsIs hash256 s = none) := by
+  obtain ⟨hx, hhx⟩ := hrpExpand_known net
+  have hv16 : v ≤ 16 := by rcases hcase with h | h | h <;> omega
+  have hlen : 2 ≤ prog.length ∧ prog.length ≤ 40 := by rcases hcase with h | h | h <;> omega
+  have hne : prog ≠ [] := by intro e; rw [e] at hlen; simp at hlen
+  have henc := encode_segwit hnet hhx v hv16 prog hne (by omega)
+  have hdec := decode_segwit hnet hhx v (by omega) prog hlen
+  obtain ⟨pad, hpad, hslen, hsge⟩ := segwitAddr_length net hx v prog hne
+  obtain ⟨rest, hrest⟩ := segwitAddr_eq net hx v prog
+  have haddr : address hash256 spk net = some (segwitAddr net hx v prog) := by
+    rcases hcase with ⟨_, _, rfl⟩ | ⟨_, _, rfl⟩ | ⟨_, _, rfl⟩ <;> simp only [address, hprog, henc]
+  refine ⟨segwitAddr net hx v prog, haddr, ?_, ?_, ?_, ?_⟩
+  · -- address_to_script_pubkey
+    rcases hcase with ⟨rfl, hL, rfl⟩ | ⟨rfl, hL, rfl⟩ | ⟨rfl, hL, rfl⟩
+    · have hlen42 : (segwitAddr net hx 0 prog).length = (hrpOf net).length + 40 := by omega
+      have hq : b32char 0 = 'q' := by decide
+      rw [hq] at hrest
+      have hc : Gen.a2sWpkhLens.contains (segwitAddr net hx 0 prog).length = true := by
+        rw [hlen42]; rcases hrpOf_length net with e | e <;> rw [e] <;> decide
+      rw [hrest] at hc hdec ⊢
+      rw [a2s_v0, if_pos hc, hdec]; rfl
+    · have hlen62 : (segwitAddr net hx 0 prog).length = (hrpOf net).length + 60 := by omega
+      have hq : b32char 0 = 'q' := by decide
+      rw [hq] at hrest
+      have hc1 : Gen.a2sWpkhLens.contains (segwitAddr net hx 0 prog).length = false := by
+        rw [hlen62]; rcases hrpOf_length net with e | e <;> rw [e] <;> decide
+      have hc2 : Gen.a2sWshLens.contains (segwitAddr net hx 0 prog).length = true := by
+        rw [hlen62]; rcases hrpOf_length net with e | e <;> rw [e] <;> decide
+      rw [hrest] at hc1 hc2 hdec ⊢
+      rw [a2s_v0, if_neg (by rw [hc1]; decide), if_pos hc2, hdec]; rfl
+    · have hlen62 : (segwitAddr net hx 1 prog).length = (hrpOf net).length + 60 := by omega
+      have hp : b32char 1 = 'p' := by decide
+      rw [hp] at hrest
+      have hc : Gen.a2sTrLens.contains (segwitAddr net hx 1 prog).length = true := by
+        rw [hlen62]; rcases hrpOf_length net with e | e <;> rw [e] <;> decide
+      rw [hrest] at hc hdec ⊢
+      rw [a2s_v1, if_neg (by rw [hc]; decide), hdec]; rfl
+  · -- TxOut.to_address, repaired prefix list
+    unfold segwitAddr at hdec ⊢
+    rw [toAddress_segwit_repaired, hdec]
+    rcases hcase with ⟨rfl, hL, rfl⟩ | ⟨rfl, hL, rfl⟩ | ⟨rfl, hL, rfl⟩ <;>
+      simp [hL, Gen.toAddrV0, Gen.toAddrV1, Gen.toAddrV0LenA, Gen.toAddrV0LenB, Gen.toAddrV1Len]
+  · -- TxOut.to_address as it is, networks other than regtest
+    intro hnr
+    have hhrp : hrpOf net ≠ ['b', 'c', 'r', 't'] := by
+      rcases hnet with rfl | rfl | rfl | rfl
+      · decide
+      · decide
+      · decide
+      · exact absurd rfl hnr
+    unfold segwitAddr at hdec ⊢
+    rw [toAddress_segwit_asis _ _ hhrp, hdec]
+    rcases hcase with ⟨rfl, hL, rfl⟩ | ⟨rfl, hL, rfl⟩ | ⟨rfl, hL, rfl⟩ <;>
+      simp [hL, Gen.toAddrV0, Gen.toAddrV1, Gen.toAddrV0LenA, Gen.toAddrV0LenB, Gen.toAddrV1Len]
+  · -- F09a
+    intro hr
+    subst hr
+    have : hrpOf regtest = ['b', 'c', 'r', 't'] := by decide
+    unfold segwitAddr
+    rw [this]
+    exact toAddress_asis_regtest hash256 _
+
+/-- P2WPKH ↔ bech32 address, every network; `TxOut.to_address` with the repaired prefix list -/
+theorem address_roundtrip_p2wpkh (hash256 : Bytes → Bytes) (net : Str) (hnet : KnownNet net) (h : Bytes) (hl : h.length = 20) :
+    ∃ s, address hash256 (.p2wpkh h) net = some s ∧ addressToScriptPubkey hash256 s = some (.p2wpkh h) ∧
+      toAddress segPrefixesRepaired hash256 s = some (.p2wpkh h) := by
+  obtain ⟨s, h1, h2, h3, _⟩ := segwit_template hash256 net hnet (.p2wpkh h) 0 h (p2wpkh_program h (by omega))
+    (Or.inl ⟨rfl, hl, rfl⟩)
+  exact ⟨s, h1, h2, h3⟩
+
+/-- P2WSH ↔ bech32 address -/
+theorem address_roundtrip_p2wsh (hash256 : Bytes → Bytes) (net : Str) (hnet : KnownNet net) (h : Bytes) (hl : h.length = 32) :
+    ∃ s, address hash256 (.p2wsh h) net = some s ∧ addressToScriptPubkey hash256 s = some (.p2wsh h) ∧
+      toAddress segPrefixesRepaired hash256 s = some (.p2wsh h) := by
+  obtain ⟨s, h1, h2, h3, _⟩ := segwit_template hash256 net hnet (.p2wsh h) 0 h (p2wsh_program h (by omega))
+    (Or.inr (Or.inl ⟨rfl, hl, rfl⟩))
+  exact ⟨s, h1, h2, h3⟩
+
+/-- P2TR ↔ bech32m address -/
+theorem address_roundtrip_p2tr (hash256 : Bytes → Bytes) (net : Str) (hnet : KnownNet net) (h : Bytes) (hl : h.length = 32) :
+    ∃ s, address hash256 (.p2tr h) net = some s ∧ addressToScriptPubkey hash256 s = some (.p2tr h) ∧
+      toAddress segPrefixesRepaired hash256 s = some (.p2tr h) := by
+  obtain ⟨s, h1, h2, h3, _⟩ := segwit_template hash256 net hnet (.p2tr h) 1 h (p2tr_program h (by omega))
+    (Or.inr (Or.inr ⟨rfl, hl, rfl⟩))
+  exact ⟨s, h1, h2, h3⟩
+
+/-- F09a, what holds for the source as it is today: `TxOut.to_address` inverts `.address` for
+    the three segwit templates on every network except regtest.
+    Full statement (holds for the repaired prefix list, see the three theorems above):
+    the same for every `KnownNet net`. -/
+theorem toAddress_roundtrip_partial (hash256 : Bytes → Bytes) (net : Str) (hnet : KnownNet net) (hnr : net ≠ regtest)
+    (h : Bytes) :
+    (h.length = 20 → ∃ s, address hash256 (.p2wpkh h) net = some s ∧ toAddress segPrefixesAsIs hash256 s = some (.p2wpkh h)) ∧
+    (h.length = 32 → ∃ s, address hash256 (.p2wsh h) net = some s ∧ toAddress segPrefixesAsIs hash256 s = some (.p2wsh h)) ∧
+    (h.length = 32 → ∃ s, address hash256 (.p2tr h) net = some s ∧ toAddress segPrefixesAsIs hash256 s = some (.p2tr h)) := by
+  refine ⟨fun hl => ?_, fun hl => ?_, fun hl => ?_⟩
+  · obtain ⟨s, h1, _, _, h4, _⟩ := segwit_template hash256 net hnet (.p2wpkh h) 0 h (p2wpkh_program h (by omega))
+      (Or.inl ⟨rfl, hl, rfl⟩)
+    exact ⟨s, h1, h4 hnr⟩
+  · obtain ⟨s, h1, _, _, h4, _⟩ := segwit_template hash256 net hnet (.p2wsh h) 0 h (p2wsh_program h (by omega))
+      (Or.inr (Or.inl ⟨rfl, hl, rfl⟩))
+    exact ⟨s, h1, h4 hnr⟩
+  · obtain ⟨s, h1, _, _, h4, _⟩ := segwit_template hash256 net hnet (.p2tr h) 1 h (p2tr_program h (by omega))
+      (Or.inr (Or.inr ⟨rfl, hl, rfl⟩))
+    exact ⟨s, h1, h4 hnr⟩
+
+/-- F09a: with the prefix list of today's source, the regtest address of every P2WPKH script is
+    accepted by `address_to_script_pubkey` and refused by `TxOut.to_address` -/
+theorem F09a_witness (hash256 : Bytes → Bytes) (h : Bytes) (hl : h.length = 20) :
+    ∃ s, address hash256 (.p2wpkh h) regtest = some s ∧ addressToScriptPubkey hash256 s = some (.p2wpkh h) ∧
+      toAddress segPrefixesAsIs hash256 s = none := by
+  obtain ⟨s, h1, h2, _, _, h5⟩ := segwit_template hash256 regtest (by unfold KnownNet; simp) (.p2wpkh h) 0 h
+    (p2wpkh_program h (by omega)) (Or.inl ⟨rfl, hl, rfl⟩)
+  exact ⟨s, h1, h2, h5 rfl⟩
+
+/-- the two prefix lists: today's source and the repaired one -/
+theorem F09a_lists : segPrefixesAsIs = ["bc1", "tb1"] ∧ segPrefixesRepaired = ["bc1", "tb1", "bcrt1"] := ⟨rfl, rfl⟩
 
 end Buidl.Props.C09
